@@ -268,9 +268,16 @@ fn gen_c08(rng: &mut Rng, tier: Tier) -> Case {
     // AVX chains over cached bases: plan related lengths on one live planner
     let pk0 = *rng.pick(pks_for(elem));
     case.planners.push(pk0);
-    for _ in 0..ninst {
+    // history: instances planned one after the other on one live planner, either chain-related lengths or an inner-length
+    // family in one direction (so that a later plan is built around an earlier, cached one)
+    let fam: Option<(Vec<usize>, Dir)> = if rng.chance(0.3) { Some((pools(nmax).family(rng), pick_dir(rng))) } else { None };
+    let ninst = if fam.is_some() { ninst.max(2) } else { ninst };
+    for i in 0..ninst {
         let dir = pick_dir(rng);
-        if rng.chance(0.35) {
+        if let Some((f, d)) = &fam {
+            let len = if i < 2 && f.len() >= 2 && rng.chance(0.7) { f[i] } else { *rng.pick(f) };
+            case.insts.push(InstDef { spec: Spec::Planned(pk0, len), dir: *d, from_planner: Some(0) });
+        } else if rng.chance(0.35) {
             case.insts.push(InstDef { spec: Spec::Planned(pk0, pools(nmax).pick_chain(rng)), dir, from_planner: Some(0) });
         } else {
             case.insts.push(InstDef { spec: gen_spec(rng, nmax, elem, 35, 3), dir, from_planner: None });
@@ -498,7 +505,10 @@ fn gen_c10(rng: &mut Rng, tier: Tier, index: u64) -> Case {
     }
     let nthreads = 1 + rng.below(4) as usize;
     // a small set of related lengths per case so that requests hit one another's cache entries
-    let lens: Vec<usize> = (0..2 + rng.below(4)).map(|_| pools(nmax).pick_chain(rng)).collect();
+    let fam = rng.chance(0.3);
+    let lens: Vec<usize> = if fam { pools(nmax).family(rng) } else { (0..2 + rng.below(4)).map(|_| pools(nmax).pick_chain(rng)).collect() };
+    // inner-length families matter when the direction agrees: bias towards one direction there
+    let fam_dir = pick_dir(rng);
     let mut left = 3 + rng.below(10) as usize; // total requests <= 12
     for _ in 0..nthreads {
         let mut ops = Vec::new();
@@ -510,7 +520,8 @@ fn gen_c10(rng: &mut Rng, tier: Tier, index: u64) -> Case {
             let len = if rng.chance(0.85) { *rng.pick(&lens) } else { pools(nmax).pick(rng) };
             let r = rng.below(100);
             if r < 70 {
-                ops.push(Op::Plan { planner, len, dir: pick_dir(rng), via: rng.chance(0.3), slot });
+                let dir = if fam && rng.chance(0.8) { fam_dir } else { pick_dir(rng) };
+                ops.push(Op::Plan { planner, len, dir, via: rng.chance(0.3), slot });
                 ops.push(checked_call(rng, slot, 3));
                 slot += 1;
             } else if r < 88 {
